@@ -4,7 +4,7 @@ from fvverif.runner import obligations_of
 
 
 ALL_MODULES = ['contracts.' + m for m in ('ops', 'bc', 'solver', 'mesh', 'means', 'limiters', 'state', 'algebra', 'purity', 'loud',
-                                            'units', 'embed', 'dmp', 'canaries')]
+                                            'units', 'embed', 'dmp', 'recompute', 'canaries')]
 
 
 def jobs_for(prop, modules, tier, quick_skip=()):
